@@ -330,6 +330,10 @@ class HLightSub(HLight):
 
 
 CLASSES = {
+    # the library's own classes, exactly as shipped (no hook routing: used where no fault is injected)
+    "PNode": Node,
+    "PAny": AnyNode,
+    "PSym": SymlinkNode,
     "HLightStr": HLightStr,
     "HMixSlot": HMixSlot,
     "HNodeInst": HNodeInst,
@@ -351,6 +355,9 @@ CLASSES = {
     "HLightDict": HLightDict,
 }
 FAMILY = {
+    "PNode": "node",
+    "PAny": "node",
+    "PSym": "node",
     "HLightStr": "light",
     "HMixSlot": "node",
     "HNodeInst": "node",
@@ -371,7 +378,7 @@ FAMILY = {
     "HLight": "light",
     "HLightDict": "light",
 }
-LINK_CLASSES = ("HSym", "HSymMix", "HSymProp")
+LINK_CLASSES = ("HSym", "HSymMix", "HSymProp", "PSym")
 
 
 class NonNode(object):
@@ -406,11 +413,11 @@ def make_node(clsname, name, attrs=None, target=None, parent=None, children=None
         _instance_hooks(obj)
     attrs = attrs or {}
     base = getattr(cls, "_sim_base", cls.__name__)
-    if base in ("HSym",):
+    if base in ("HSym",) or cls is SymlinkNode:
         obj.__init__(target, parent=parent, children=children, **attrs)
     elif base in ("HSymMix", "HSymProp"):
         obj.__init__(target, parent=parent, children=children)
-    elif base == "HAny":
+    elif base == "HAny" or cls is AnyNode:
         obj.__init__(parent=parent, children=children, name=name, **attrs)
     else:
         obj.__init__(name, parent=parent, children=children, **attrs)
